@@ -42,6 +42,10 @@ func runC07(c *Ctx) {
 	F := model.FindFields(c.P)
 	R.Rule("C07.R7", "URLs the policy allows are not rejected: with URL checking on, validURL returns false only for a tabled reason — white space outside a data: URL, a parse error, a non-empty scheme not admitted by the scheme table / patterns / custom checks, or a scheme-less URL while relative URLs are off or the re-serialised URL is empty")
 	c03ValidURL(c, F, "C07.R7")
+	R.Rule("C07.R11", "a result handed out stays as returned (= C13.R1, cited): no sanitising path writes to memory that outlives the call, so the bytes of a conforming document that was returned are not overwritten by a later call")
+	c13SharedWrites(c, "C07.R11", "the bytes of a result already returned can be overwritten by a later call: the conforming document the caller holds is no longer what was returned", true)
+	R.Rule("C07.R10", "the default handler is the last resort: css.GetDefaultHandler(property) is stored into a style rule only on paths where the builder's handler is nil, its enum empty and its regexp nil — next to a user-supplied matcher it would take precedence in sanitizeStyles")
+	defaultHandlerLastResort(c, "C07.R10")
 	R.Rule("C07.R9", "names are looked up as delivered: in the tag arms of sanitize every policy-table lookup keyed by a name and every name argument of the module's own functions is token.Data itself (what the builders store is strings.ToLower(name), which is what the tokenizer delivers)")
 	namesAsDelivered(c, "C07.R9")
 	R.Rule("C07.R8", "one matcher per property: in the style builders a style rule value that is modified inside a loop is created in that loop, so the default handler chosen for one property is never carried over to the next")
